@@ -41,6 +41,8 @@ def slice_keep(tier: str):
         if not quick:
             return True
         fam, m = j["family"].split("/")[0].split("~")[0], j["meta"]
+        if m.get("owner_only"):
+            return False  # shapes that belong to the owning check alone
         if "~" in j["family"]:
             return True  # variants are only built from programs of the slice
         if j["family"].split("~")[0] in ("C10/scope", "C10/nonbinding", "C11/eqagg", "C12/signed"):
